@@ -23,4 +23,22 @@ PROPS = {
              "laws: three pairwise different triples sharing a major version. Distinct = hash of the decoded case.",
         assumptions=COMMON_ASSUME + ["the library's own format version is read from a file it has just created"],
     ),
+    "C07": dict(
+        bin="h_access", sub="c07", level="exploration",
+        technique="rapidcheck-generated axes and positions (on, one ulp beside, between, beyond coordinates) against a brute-force search over the axis",
+        level_text="generated sampled/range/set/data-frame axes (decimal, binary and random intervals and offsets, indices up to 10^4, "
+                   "1-64 ticks, 0-12 labels/rows) and positions on, one ulp beside, between, below and beyond the coordinates; every one of "
+                   "the five PositionMatch rules, both RangeMatch modes, scalar, vector and util:: overloads are compared with the index "
+                   "found by exact comparisons against the axis coordinates themselves; exploration, no proof for all doubles",
+        level_note="axis coordinates are computed by the documented expression index*interval+offset with -ffp-contract=off in library and "
+                   "harness; for unbounded axes the reference search is a +-16 window around the real-number estimate, generators keep "
+                   "ulp(x_max) < interval/8 so that the window is decisive (undecidable cases are counted as excluded)",
+        quick=dict(cases=4000, size=60, workers=16, timeout=1800),
+        thorough=dict(cases=200000, size=60, workers=16, timeout=14400),
+        rule="tape -> axis kind and parameters, 1-6 positions from classes {on coordinate i, one ulp above/below, midpoint, random between, "
+             "below the first, one ulp below the first, beyond the last, far (1e9..DBL_MAX, bounded axes)}, 1-4 start/end pairs, a round-trip "
+             "index. Non-trivial: a position on or within one ulp of a coordinate on an axis with a non-dyadic interval/offset (or a range/"
+             "set/frame axis), or a pair whose validity differs between Inclusive and Exclusive. Distinct = hash of the decoded case.",
+        assumptions=COMMON_ASSUME + ["positions whose index would exceed 2*10^4 on an unbounded axis are outside the quantified domain and not generated"],
+    ),
 }
